@@ -2,6 +2,7 @@ package nfs
 
 import (
 	"fmt"
+	"regexp"
 	"sort"
 	"strings"
 	"sync"
@@ -21,6 +22,8 @@ import (
 type results struct {
 	mu sync.Mutex
 	m  map[string]string
+	// locks: structured records of the C20 lock scenarios (conclocks.go).
+	locks *lockRecs
 }
 
 func (r *results) set(k, v string) {
@@ -47,6 +50,15 @@ func (r *results) dump() string {
 	for _, k := range ks {
 		fmt.Fprintf(&b, "%s=%s;", k, r.m[k])
 	}
+	if r.locks != nil {
+		for _, l := range r.locks.recs {
+			if l == nil {
+				b.WriteString("-|")
+			} else {
+				b.WriteString(l.String() + "|")
+			}
+		}
+	}
 	return b.String()
 }
 
@@ -72,6 +84,13 @@ type concSpec struct {
 	// are done; the common ones (no leaf fault, balanced after expiry,
 	// no records retained) follow.
 	finish func(w *world, x *mc.X, r *results)
+	// monitor, if set, runs at every quiescent point while monitorProp
+	// (default C19) is being checked; whatever it remembers must go into
+	// r (part of the key).
+	monitor     func(w *world, x *mc.X, r *results)
+	monitorProp string
+	// lockRecords: number of request records of a C20 lock scenario.
+	lockRecords int
 }
 
 func concScenario(s concSpec) *mc.Scenario {
@@ -106,6 +125,16 @@ func concScenario(s concSpec) *mc.Scenario {
 				x.AddEvent(&mc.Event{Name: e.name, Enabled: func() bool { return !fired }, Fire: func() { fired = true; e.fire(w) }, Cost: 1})
 			}
 			x.SetKey(func() string { return w.serverDump() + w.fs.dump() + r.dump() + w.clk.Now().Sub(epoch).String() })
+			if s.lockRecords > 0 {
+				r.locks = &lockRecs{recs: make([]*lockRec, s.lockRecords)}
+			}
+			if s.monitor != nil {
+				mp := s.monitorProp
+				if mp == "" {
+					mp = "C19"
+				}
+				x.Monitor(mp, func() { s.monitor(w, x, r) })
+			}
 			x.Monitor("C18", func() {
 				w.fs.mu.Lock()
 				faults := append([]string(nil), w.fs.faults...)
@@ -184,6 +213,40 @@ func raw40reregister(cl string) func(w *world, x *mc.X, r *results) {
 	}
 }
 
+// raw40downgradeUpgradeClose is one client thread that sends, one after the
+// other, OPEN_DOWNGRADE to read-only, OPEN for write again (an upgrade of
+// the same open by the same open-owner) and CLOSE, each with the state ID
+// returned by its predecessor.
+func raw40downgradeUpgradeClose(cl, owner, file string) func(w *world, x *mc.X, r *results) {
+	return func(w *world, x *mc.X, r *results) {
+		c := w.client40(cl)
+		o := c.owner(owner)
+		op := o.files[file]
+		seq, sid := nextSeq(o.seq), op.sid
+		res := w.compound(0, "OPEN_DOWNGRADE", putfh(op.leaf.handle), &nfsv4.NfsArgop4_OP_OPEN_DOWNGRADE{OpopenDowngrade: nfsv4.OpenDowngrade4args{Seqid: seq, OpenStateid: sid, ShareAccess: accRead}})
+		r.set("OPEN_DOWNGRADE", statusOf(res))
+		if res.Status != nfsv4.NFS4_OK {
+			return
+		}
+		sid = res.Resarray[1].(*nfsv4.NfsResop4_OP_OPEN_DOWNGRADE).OpopenDowngrade.(*nfsv4.OpenDowngrade4res_NFS4_OK).Resok4.OpenStateid
+		x.ResetLocal(fmt.Sprintf("downgraded:%d", sid.Seqid))
+		seq = nextSeq(seq)
+		res = w.compound(0, "OPEN(upgrade)", &nfsv4.NfsArgop4_OP_PUTROOTFH{}, &nfsv4.NfsArgop4_OP_OPEN{Opopen: nfsv4.Open4args{
+			Seqid: seq, ShareAccess: accWrite, ShareDeny: nfsv4.OPEN4_SHARE_DENY_NONE,
+			Owner: nfsv4.OpenOwner4{Clientid: c.id, Owner: []byte(owner)}, Openhow: openflag(howNoCreate), Claim: &nfsv4.OpenClaim4_CLAIM_NULL{File: file},
+		}})
+		r.set("OPEN(upgrade)", statusOf(res))
+		if res.Status != nfsv4.NFS4_OK {
+			return
+		}
+		sid = res.Resarray[1].(*nfsv4.NfsResop4_OP_OPEN).Opopen.(*nfsv4.Open4res_NFS4_OK).Resok4.Stateid
+		x.ResetLocal(fmt.Sprintf("upgraded:%d", sid.Seqid))
+		seq = nextSeq(seq)
+		res = w.compound(0, "CLOSE", putfh(op.leaf.handle), &nfsv4.NfsArgop4_OP_CLOSE{Opclose: nfsv4.Close4args{Seqid: seq, OpenStateid: sid}})
+		r.set("CLOSE", statusOf(res))
+	}
+}
+
 func rawPoke(n int) func(w *world, x *mc.X, r *results) {
 	return func(w *world, x *mc.X, r *results) {
 		for i := 0; i < n; i++ {
@@ -222,6 +285,38 @@ func ops41downgrade(cl, owner, file string, access uint32) func(w *world) []nfsv
 	return func(w *world) []nfsv4.NfsArgop4 {
 		op := open41of(w, cl, owner, file)
 		return []nfsv4.NfsArgop4{putfh(op.leaf.handle), &nfsv4.NfsArgop4_OP_OPEN_DOWNGRADE{OpopenDowngrade: nfsv4.OpenDowngrade4args{OpenStateid: op.sid, ShareAccess: access}}}
+	}
+}
+
+// raw41downgradeUpgradeClose is the NFSv4.1 twin of
+// raw40downgradeUpgradeClose, on one slot of the client's session.
+func raw41downgradeUpgradeClose(cl string, slot uint32, owner, file string) func(w *world, x *mc.X, r *results) {
+	return func(w *world, x *mc.X, r *results) {
+		c := w.c41[cl]
+		s := c.session()
+		op := open41of(w, cl, owner, file)
+		seq, sid := s.seq[slot]+1, op.sid
+		res := w.compound(1, "OPEN_DOWNGRADE", sequenceOp(s, slot, seq), putfh(op.leaf.handle), &nfsv4.NfsArgop4_OP_OPEN_DOWNGRADE{OpopenDowngrade: nfsv4.OpenDowngrade4args{OpenStateid: sid, ShareAccess: accRead}})
+		r.set("OPEN_DOWNGRADE", statusOf(res))
+		if res.Status != nfsv4.NFS4_OK {
+			return
+		}
+		sid = res.Resarray[2].(*nfsv4.NfsResop4_OP_OPEN_DOWNGRADE).OpopenDowngrade.(*nfsv4.OpenDowngrade4res_NFS4_OK).Resok4.OpenStateid
+		x.ResetLocal(fmt.Sprintf("downgraded:%d", sid.Seqid))
+		seq++
+		res = w.compound(1, "OPEN(upgrade)", sequenceOp(s, slot, seq), &nfsv4.NfsArgop4_OP_PUTROOTFH{}, &nfsv4.NfsArgop4_OP_OPEN{Opopen: nfsv4.Open4args{
+			ShareAccess: accWrite, ShareDeny: nfsv4.OPEN4_SHARE_DENY_NONE,
+			Owner: nfsv4.OpenOwner4{Clientid: c.id, Owner: []byte(owner)}, Openhow: openflag(howNoCreate), Claim: &nfsv4.OpenClaim4_CLAIM_NULL{File: file},
+		}})
+		r.set("OPEN(upgrade)", statusOf(res))
+		if res.Status != nfsv4.NFS4_OK {
+			return
+		}
+		sid = res.Resarray[2].(*nfsv4.NfsResop4_OP_OPEN).Opopen.(*nfsv4.Open4res_NFS4_OK).Resok4.Stateid
+		x.ResetLocal(fmt.Sprintf("upgraded:%d", sid.Seqid))
+		seq++
+		res = w.compound(1, "CLOSE", sequenceOp(s, slot, seq), putfh(op.leaf.handle), &nfsv4.NfsArgop4_OP_CLOSE{Opclose: nfsv4.Close4args{OpenStateid: sid}})
+		r.set("CLOSE", statusOf(res))
 	}
 }
 
@@ -336,6 +431,52 @@ func sameReply(file string, opensBefore int) func(w *world, x *mc.X, r *results)
 	}
 }
 
+// noteInFlightDuplicate remembers that, at some quiescent point, a slot of
+// an NFSv4.1 session was busy with a request AND had a duplicate of that
+// request waiting for its result: the retransmission arrived while the
+// original was being processed.
+var busyWithWaiter = regexp.MustCompile(`busy\+[1-9]`)
+
+func noteInFlightDuplicate(w *world, x *mc.X, r *results) {
+	if r.get("waiter") == "" && busyWithWaiter.MatchString(w.inspect41().Dump) {
+		r.set("waiter", "registered-while-original-in-progress")
+	}
+}
+
+// sameReplyUncached is sameReply for requests sent with sa_cachethis=false.
+// Which of the two identical requests the server treats as the original is
+// decided by the schedule. The one that arrived second
+//   - WHILE the first was being processed (the slot was seen busy with a
+//     waiter) "completes with the original's result": same bytes;
+//   - after the first completed gets the same bytes or
+//     NFS4ERR_RETRY_UNCACHED_REP (RFC 8881, section 2.10.6.1.3).
+//
+// Either way the file is opened once.
+func sameReplyUncached(file string) func(w *world, x *mc.X, r *results) {
+	return func(w *world, x *mc.X, r *results) {
+		a, b := r.get("original"), r.get("duplicate")
+		if !strings.HasPrefix(a, "0:") {
+			a, b = b, a
+		}
+		if !strings.HasPrefix(a, "0:") {
+			x.FailP("C19", "concurrent/original-failed", "neither of the two identical requests succeeded: %s / %s", a, b)
+			return
+		}
+		if a != b {
+			uncachedRep := fmt.Sprintf("%d:", nfsv4.NFS4ERR_RETRY_UNCACHED_REP)
+			if r.get("waiter") != "" {
+				x.FailP("C19", "concurrent/inflight-duplicate-different-reply", "sa_cachethis=false: the duplicate arrived while the original was being processed (slot busy with a waiter), but did not complete with the original's result:\noriginal  %s\nduplicate %s", a, b)
+			} else if !strings.HasPrefix(b, uncachedRep) {
+				x.FailP("C19", "concurrent/duplicate-different-reply", "sa_cachethis=false: the duplicate that arrived after the original completed was answered neither with the original's reply nor with NFS4ERR_RETRY_UNCACHED_REP:\noriginal  %s\nduplicate %s", a, b)
+			}
+		}
+		leaf := w.fs.linked[file]
+		if got := leaf.opens[bitRead]; got != 1 {
+			x.FailP("C19", "concurrent/executed-twice", "original and duplicate (sa_cachethis=false): leaf %s was opened %d times instead of once", leaf.id, got)
+		}
+	}
+}
+
 func scenarios() []*mc.Scenario {
 	var out []*mc.Scenario
 	c18 := []string{"C18"}
@@ -353,6 +494,12 @@ func scenarios() []*mc.Scenario {
 			finish: expectOK("OPEN_DOWNGRADE")}),
 		concScenario(concSpec{name: "c40-write-reregister", props: c18, liveness: c18, prefix: p40,
 			threads: []concThread{{"io", raw40io(ioWrite, "c1", "O1", "a")}, {"register", raw40reregister("c1")}}}),
+		// The WRITE parked in the leaf holds a clone of the read+write
+		// share reservation that outlives the OPEN_DOWNGRADE; the same
+		// open-owner then upgrades to write again and closes.
+		concScenario(concSpec{name: "c40-write-downgrade-upgrade-close", props: c18, liveness: c18, prefix: p40,
+			threads: []concThread{{"io", raw40io(ioWrite, "c1", "O1", "a")}, {"owner", raw40downgradeUpgradeClose("c1", "O1", "a")}},
+			finish:  both(expectOK("OPEN_DOWNGRADE", "OPEN(upgrade)", "CLOSE"), balancedNow("CLOSE"))}),
 		concScenario(concSpec{name: "c40-read-expiry", props: c18, liveness: c18, prefix: p40,
 			threads: []concThread{{"io", raw40io(ioRead, "c1", "O1", "a")}, {"poke", rawPoke(2)}},
 			events:  []concEvent{{"clock+lease", func(w *world) { w.advance(pastLease) }}}}),
@@ -367,6 +514,9 @@ func scenarios() []*mc.Scenario {
 		concScenario(concSpec{name: "c41-write-downgrade", props: c18, liveness: c18, prefix: p41,
 			threads: []concThread{{"io", raw41("d1", 0, "WRITE", ops41io(ioWrite, "d1", "O1", "a"))}, {"downgrade", raw41("d1", 1, "OPEN_DOWNGRADE", ops41downgrade("d1", "O1", "a", accRead))}},
 			finish:  expectOK("OPEN_DOWNGRADE")}),
+		concScenario(concSpec{name: "c41-write-downgrade-upgrade-close", props: c18, liveness: c18, prefix: p41,
+			threads: []concThread{{"io", raw41("d1", 0, "WRITE", ops41io(ioWrite, "d1", "O1", "a"))}, {"owner", raw41downgradeUpgradeClose("d1", 1, "O1", "a")}},
+			finish:  both(expectOK("OPEN_DOWNGRADE", "OPEN(upgrade)", "CLOSE"), balancedNow("CLOSE"))}),
 		concScenario(concSpec{name: "c41-write-new-incarnation", props: c18, liveness: c18, prefix: p41,
 			threads: []concThread{{"io", raw41("d1", 0, "WRITE", ops41io(ioWrite, "d1", "O1", "a"))}, {"register", raw41newIncarnation("d1")}}}),
 		concScenario(concSpec{name: "c41-read-destroy", props: c18, liveness: c18, prefix: p41,
@@ -388,6 +538,23 @@ func scenarios() []*mc.Scenario {
 		concScenario(concSpec{name: "c41-inflight-duplicate", props: []string{"C19", "C18"}, liveness: c19, prefix: prefix41Session("d1"),
 			threads: []concThread{{"original", dup41("original", "d1", 0, "a")}, {"duplicate", dup41("duplicate", "d1", 0, "a")}, {"other", dup41("other", "d1", 1, "b")}},
 			finish:  sameReply("a", 0)}),
+		// The same with sa_cachethis=false: the reply is NOT kept in the
+		// slot's replay cache (only a RETRY_UNCACHED_REP stub is), so a
+		// duplicate that waits for the original must be handed the real
+		// result. Without the unrelated request: all interleavings (unbounded).
+		concScenario(concSpec{name: "c41-inflight-duplicate-uncached", props: []string{"C19", "C18"}, liveness: c19,
+			bounds:  map[string]int{"quick": -1, "thorough": -1},
+			prefix:  chain(func(w *world, f failer) { w.uncached41 = true }, prefix41Session("d1")),
+			threads: []concThread{{"original", dup41("original", "d1", 0, "a")}, {"duplicate", dup41("duplicate", "d1", 0, "a")}},
+			monitor: noteInFlightDuplicate,
+			finish:  sameReplyUncached("a")}),
+		// ... and with the unrelated request on the other slot.
+		concScenario(concSpec{name: "c41-inflight-duplicate-uncached-3", props: []string{"C19"}, liveness: c19,
+			bounds:  map[string]int{"quick": 2, "thorough": -1},
+			prefix:  chain(func(w *world, f failer) { w.uncached41 = true }, prefix41Session("d1")),
+			threads: []concThread{{"original", dup41("original", "d1", 0, "a")}, {"duplicate", dup41("duplicate", "d1", 0, "a")}, {"other", dup41("other", "d1", 1, "b")}},
+			monitor: noteInFlightDuplicate,
+			finish:  sameReplyUncached("a")}),
 		// NFSv4.0, confirmed open-owner: original parked in
 		// VirtualOpenChild with the server lock dropped.
 		concScenario(concSpec{name: "c40-inflight-duplicate", props: []string{"C19", "C18"}, liveness: c19, prefix: prefix40Open("c1", "O1", "b", accRead),
